@@ -127,6 +127,36 @@ def _is_stack_len(F, p, v):
     return v[0] == 'call' and v[1].endswith('Vec::<T, A>::len') and v[2] and _stack_ref(F, p, v[2][0])
 
 
+def counted_trip(fn, p, h, body):
+    """trip count of a counted `while`: the exit test compares a counter that moves by one per iteration with a loop-invariant
+    bound.  Read from the two evaluations of the exit condition on a path that iterates once."""
+    conds = []
+    for (what, val, b) in p.constraints:
+        if what[0] != 'switch' or b not in body:
+            continue
+        t = fn.term(b)
+        outs = [x[1] for x in t['targets']] + [t['otherwise']]
+        if any(o not in body for o in outs):
+            conds.append(what[1])
+    if len(conds) < 2:
+        return None
+    c0, c1 = conds[0], conds[1]
+    if not (c0[0] == 'binop' and c1[0] == 'binop' and c0[1] == c1[1]):
+        return None
+    op = c0[1]
+    a0, b0, a1, b1 = _plain(c0[2]), _plain(c0[3]), _plain(c1[2]), _plain(c1[3])
+
+    def step(x1, x0, opn):
+        return x1[0] == 'binop' and x1[1] == opn and _plain(x1[2]) == x0 and int_of(x1[3]) == 1
+    if op in ('Gt', 'Ne') and int_of(b0) == 0 and int_of(b1) == 0 and step(a1, a0, 'Sub'):
+        return a0                       # while n > 0 { ..; n -= 1 }
+    if op == 'Lt' and b0 == b1 and step(a1, a0, 'Add') and int_of(a0) == 0:
+        return b0                       # while i < n { ..; i += 1 }  from 0
+    if op in ('Lt', 'Ne') and int_of(a0) == 0 and int_of(a1) == 0 and step(b1, b0, 'Sub'):
+        return b0                       # while 0 < n
+    return None
+
+
 BULK = {'::resize': 'push', '::split_off': 'pop', '::drain': 'pop', '::truncate': 'pop'}
 
 
@@ -203,6 +233,10 @@ def vmx(ctx, config='default'):
                                 # the into_iter immediately preceding this loop header on the path
                                 if fn.blocks[c[0]]['term']['target'] is not None:
                                     trip = (c[2][0][3][0], c[2][0][3][1], c[0])
+                        if trip is None and iters >= 1:
+                            cv = counted_trip(fn, p, h, body)
+                            if cv is not None:
+                                trip = (('int', 0, 'usize'), cv, h)
                         lp[h] = {'iters': iters, 'pops': np_, 'pushes': nq_,
                                  'trip': origin(trip[1], p.env, pop_blocks, fetch_blocks) if trip else None,
                                  'trip_from': origin(trip[0], p.env, pop_blocks, fetch_blocks) if trip else None}
